@@ -104,6 +104,12 @@ pub fn eval(ctx: &Ctx, case: &Case) -> Verdict {
     if case.cs.records.iter().any(|r| !r.has_gt) {
         pass.add_label("record-without-GT-key");
     }
+    if case.cs.records.iter().any(|r| r.ref_pad >= 100) {
+        pass.add_label("long-REF-allele(>=100 bases)");
+    }
+    if case.cs.records.iter().any(|r| r.gts.iter().any(|g| g.max_allele() >= 10)) {
+        pass.add_label("two-digit-allele-index");
+    }
     Ok(pass)
 }
 
@@ -149,7 +155,7 @@ fn eval_many(ctx: &Ctx, case: &ManyCase) -> Verdict {
 pub fn check(ctx: &Ctx) -> Check {
     let parts: Vec<Box<dyn Part>> = vec![Box::new(RandomPart {
         name: "create-counts",
-        rule: "generated call sets (1..3 contigs, 1..12 samples, 0..40 records; phased/unphased, missing, multiallelic, monomorphic, symbolic ALT, extra INFO/FORMAT fields, records without a GT key; non-diploid genotypes only in unselected samples; record classes all-complete / all-missing / one-missing / only-unselected-incomplete forced) x sample->population maps (1..4 populations, any subset, inline or file, or no option at all) x container {vcf, bgzf vcf, bgzf bcf, raw bcf} x log verbosity {default, -v, -vv, -vvv, -q, -qq}: exit 0, shape (2n_j+1), every cell equal to the reference model's count and printed as a bare integer; non-trivial = >=1 record counted and (unequal population sizes | strict subset | >=1 skipped record | a counted record whose only incomplete sample is unselected); distinct by (call set, map, container)",
+        rule: "generated call sets (1..3 contigs, 1..12 samples, 0..40 records; phased/unphased, missing, multiallelic, monomorphic, symbolic ALT, up to 11 ALT alleles with two-digit allele indices, REF alleles of up to 9 000 bases (lines longer than the 8 KiB read buffer; rlen > 1 in BCF), extra INFO/FORMAT fields, records without a GT key; non-diploid genotypes only in unselected samples; record classes all-complete / all-missing / one-missing / only-unselected-incomplete forced) x sample->population maps (1..4 populations, any subset, inline or file, or no option at all) x container {vcf, bgzf vcf, bgzf bcf, raw bcf} x log verbosity {default, -v, -vv, -vvv, -q, -qq}: exit 0, shape (2n_j+1), every cell equal to the reference model's count and printed as a bare integer; non-trivial = >=1 record counted and (unequal population sizes | strict subset | >=1 skipped record | a counted record whose only incomplete sample is unselected); distinct by (call set, map, container)",
         cases: ctx.tier.pick(8000, 300_000),
         strategy: Box::new(|| strategy(GenParams::default()).boxed()),
         eval: Box::new(eval),
@@ -167,6 +173,48 @@ pub fn check(ctx: &Ctx) -> Check {
             v
         }),
         eval: Box::new(eval_many),
+    }));
+    parts.push(Box::new(RandomPart {
+        name: "decoded-bytes-vs-model",
+        rule: "the body of the libFuzzer target fz_callset on random byte strings: bytes -> (call set of <=48 records x <=6 samples from a 28-genotype alphabet incl. missing, multiallelic, two-digit and non-diploid forms; sample map; optional projection target; container in {VCF, raw BCF, BGZF VCF, BGZF BCF}) -> library genotype reader -> site reader loop; every record's fate (counted / skipped / ploidy error) and the final spectrum equal the reference model; non-trivial = >=1 record counted and >=1 skipped or failed; distinct by bytes",
+        cases: ctx.tier.pick(40_000, 1_000_000),
+        strategy: Box::new(|| prop::collection::vec(any::<u8>(), 8..400).boxed()),
+        eval: Box::new(|_ctx: &Ctx, bytes: &Vec<u8>| {
+            let (cs, map, project, container) = crate::fuzz::decode_callset(bytes);
+            let want = create(&cs, &map, project.as_deref());
+            match crate::engine::guard(|| crate::fuzz::fz_callset(bytes)) {
+                Ok(Ok(())) => {}
+                Ok(Err(e)) => fail!("{e}"),
+                Err(p) => fail!("fz_callset body: {p}"),
+            }
+            let mut pass = Pass::new().nontrivial(want.counted >= 1 && (want.skipped >= 1 || want.first_error.is_some()));
+            pass.add_label(format!("container={}", ["vcf", "bcf", "vcf.gz", "bcf.gz"][container as usize % 4]));
+            pass.add_label(if project.is_some() { "projected" } else { "unprojected" });
+            if want.first_error.is_some() {
+                pass.add_label("ploidy-error-in-selected-sample");
+            }
+            Ok(pass)
+        }),
+    }));
+    parts.push(Box::new(crate::fuzzrun::FuzzPart {
+        name: "libfuzzer-fz_callset",
+        target: "fz_callset",
+        rule: "coverage-guided (libFuzzer + ASan) search over the same decoder: structured call sets rendered in four containers, library create loop against the reference model (fates, ploidy errors, exact or 1e-9 spectrum)",
+        runs: ctx.tier.pick(0, 1_000_000),
+        max_len: 512,
+        seeds: Box::new(|_| {
+            (0..24u64)
+                .map(|i| {
+                    let mut x = crate::engine::splitmix64(0xC01 + i);
+                    (0..(40 + 15 * i as usize))
+                        .map(|_| {
+                            x = crate::engine::splitmix64(x);
+                            (x >> 32) as u8
+                        })
+                        .collect()
+                })
+                .collect()
+        }),
     }));
     Check {
         parts,
